@@ -164,7 +164,7 @@ M = [
   "        if decision_prop >= 16 {\n            return None;\n        }\n", ""),
  ("c01_unknown_colour_enum_accepted", "C01", "panic-arm", "crates/jxl-image/src/color.rs",
   "                if colour_space == ColourSpace::Unknown || matches!(tf, TransferFunction::Unknown) {", "                if false {"),
- ("c17_app_marker_type_unchecked", "C17", "match:AppMarker.ty", "crates/jxl-jbr/src/lib.rs",
+ ("c17_app_marker_type_unchecked", "C17", "ty > 3", "crates/jxl-jbr/src/lib.rs",
   "        if ty > 3 {", "        if ty > 7 {"),
  ("c01_cluster_map_decoder_two_dists", "C01", "bound-lost", "crates/jxl-coding/src/lib.rs",
   "            Decoder::parse(bitstream, 1)?\n        };\n        decoder.begin(bitstream)?;", "            Decoder::parse(bitstream, num_dist.min(2))?\n        };\n        decoder.begin(bitstream)?;"),
